@@ -129,6 +129,47 @@ def run_batch(cases: list[tuple[dict, dict, dict]], consts: dict, flavour_of=lam
     return res
 
 
+def run_sessions(sessions: list[tuple[dict, dict, list[dict]]], consts: dict, with_impl_spec: bool = True):
+    """Sessions `(policy, cfg, [request, …])`: ONE Guard (one compiled decision function) answers all the requests of a
+    session in order; every answer is compared with the model, which is a pure function of (policy, cfg, request). A
+    decision function that carries state from one request to the next (a memo keyed too coarsely, a mutated index) shows
+    up as a disagreement on a later request of some session.  Returns the same rows as `run_batch` plus the session index."""
+    impls, cmds, flat = [], [], []
+    for si, (pol, cfg, reqs) in enumerate(sessions):
+        events: list = []
+        try:
+            g = real.make_guard(pol, cfg, events)
+        except Exception as e:  # noqa: BLE001
+            g = None
+            err = {"raised": real.exc_class(e)}
+        for req in reqs:
+            if g is None:
+                out = err
+            else:
+                del events[:]
+                try:
+                    d = real.call_guard(g, req)
+                    out = {"ok": real.render_decision(d, list(events))}
+                except Exception as e:  # noqa: BLE001
+                    out = {"raised": real.exc_class(e)}
+            impls.append(out)
+            flat.append((pol, req, cfg, si))
+            cmd = real.guard_cmd(pol, req, cfg, consts, proto.build_oracle(pol, req, cfg.get("resolver"), cfg.get("checker")))
+            if with_impl_spec and "ok" in out:
+                d = out["ok"]
+                cmd["impl"] = {"allowed": d["allowed"], "effect": d["effect"], "obligations": d["obligations"],
+                               "rule_id": d["rule_id"], "policy_id": d["policy_id"], "reason": d["reason"]}
+            cmds.append(cmd)
+    answers = proto.run_driver(cmds)
+    res = []
+    for (pol, req, cfg, si), out, ans in zip(flat, impls, answers):
+        if isinstance(ans, dict) and "model" in ans:
+            res.append((pol, req, cfg, out, ans["model"], {**ans, "session": si}))
+        else:
+            res.append((pol, req, cfg, out, ans, {"session": si}))
+    return res
+
+
 def outcome_class(out: dict) -> str:
     if "raised" in out:
         return "raised:" + out["raised"]
